@@ -61,6 +61,17 @@ theorem delivered_monotone (P : Params) (s s' : State) (e : Event) (hs : step P 
           · simp at hs
         · simp at hs
     · simp at hs
+  | dialGiveUp =>
+    simp only [step, stepStale] at hs
+    split at hs
+    · simp only [Option.some.injEq] at hs; subst hs; exact ⟨[], by simp⟩
+    · simp at hs
+  | kRecvStale id =>
+    simp only [step, stepStale] at hs
+    repeat' split at hs
+    all_goals first
+      | (simp at hs; done)
+      | (simp only [Option.some.injEq] at hs; subst hs; exact ⟨[], by simp⟩)
   | lAccept id =>
     simp only [step] at hs
     split at hs
@@ -138,7 +149,7 @@ theorem delivered_monotone (P : Params) (s s' : State) (e : Event) (hs : step P 
 
 /-! ### Both orders complete (non-vacuity), both roles -/
 
-def pGood : Params := ⟨true, 1, true, true⟩
+def pGood : Params := ⟨true, 1, true, true, true⟩
 
 /-- dial first, server role: knock parked, Accept registers then starts the knock loop, stream reaches listener 7;
 a main-connection stream before and after goes to the main listener. -/
@@ -161,7 +172,7 @@ def trace3 : List Event :=
   [.dialBegin 7, .runKnock, .acceptBegin 7, .acceptFirst 7, .kRecv, .kAcceptKnock, .kAck, .dialAck, .dialOpen, .xAccept]
 
 /-- the source order before the fix: knock loop started, then listener registered -/
-def pOld : Params := ⟨false, 1, true, true⟩
+def pOld : Params := ⟨false, 1, true, true, true⟩
 
 /-- D4 (plugin accepts): dial first, the knock loop runs between the two statements of `Accept`:
 the stream for id 7 meets a token without a listener — a fatal accept error for the plugin's main gRPC server. -/
@@ -188,9 +199,9 @@ def trace5 : List Event :=
 sequential, two unblocked host-side listeners both call `session.Accept()` and the stream dialled for
 id 1 can be handed to listener 2. -/
 theorem overlap_misroute_witness :
-    ∃ s, runFrom ⟨true, 1, false, true⟩ (init .client) trace5 = some s ∧
+    ∃ s, runFrom ⟨true, 1, false, true, true⟩ (init .client) trace5 = some s ∧
       s.delivered = [(.brokered 1, .listener 2)] := by
-  refine ⟨(runFrom ⟨true, 1, false, true⟩ (init .client) trace5).get (by decide), by simp, by decide⟩
+  refine ⟨(runFrom ⟨true, 1, false, true, true⟩ (init .client) trace5).get (by decide), by simp, by decide⟩
 
 /-- the listener for id 7 is registered and acknowledged, but its server has not yet reached `Accept()` when the stream arrives -/
 def trace6 : List Event :=
@@ -200,10 +211,66 @@ def trace6 : List Event :=
 /-- a hand-off that gives up when the listener is not parked (`select … default`, falling back to the default
 listener): the stream dialled for id 7 is served by the plugin's MAIN service listener -/
 theorem nonblocking_handoff_witness :
-    ∃ s, runFrom ⟨true, 1, true, false⟩ (init .server) trace6 = some s ∧ s.delivered = [(.brokered 7, .default)] := by
-  refine ⟨(runFrom ⟨true, 1, true, false⟩ (init .server) trace6).get (by decide), by simp, by decide⟩
+    ∃ s, runFrom ⟨true, 1, true, false, true⟩ (init .server) trace6 = some s ∧ s.delivered = [(.brokered 7, .default)] := by
+  refine ⟨(runFrom ⟨true, 1, true, false, true⟩ (init .server) trace6).get (by decide), by simp, by decide⟩
 
 /-- … whereas the blocking hand-off simply has no such step: the loop waits for the listener -/
 example : runFrom pGood (init .server) trace6 = none := by decide
+
+/-! ### knocks nobody waits for any more -/
+
+/-- **A new establishment can always begin from a quiescent state**: whatever happened before — including dials that
+gave up because nobody accepted their id in time, and accepts of those ids issued later — when no handshake is in
+progress and no stream is waiting to be accepted, no token is left over and the next dial's knock is not blocked. -/
+theorem dial_can_always_begin (P : Params) (hP : P.Good) (r : Role) (s : State) (h : Reachable P r s)
+    (hi : s.hs = .idle) (hq : s.q = []) (id : Nat) : (step P s (.dialBegin id)).isSome ∧ s.tok = none ∧ s.waitCount = 0 := by
+  have hs := safe_of_reachable P hP r s h
+  have htok : s.tok = none := by
+    cases r0 : s.role with
+    | client => exact hs.c_notok r0
+    | server =>
+      cases ht : s.tok with
+      | none => rfl
+      | some x =>
+        rcases hs.tok_pipe r0 x ht with ⟨h1, _⟩ | ⟨_, h2⟩
+        · rw [hq] at h1; cases h1
+        · rcases h2 with h2 | h2 | h2 <;> (rw [hi] at h2; cases h2)
+  have hwc : s.waitCount = 0 := by
+    cases r0 : s.role with
+    | server => exact hs.s_wait r0
+    | client =>
+      by_cases hz : s.waitCount = 0
+      · exact hz
+      · obtain ⟨x, hx⟩ := hs.c_pos hz
+        obtain ⟨_, _, h3⟩ := hs.c_pipe r0 x hx
+        rcases h3 with ⟨h1, _⟩ | ⟨_, h2⟩
+        · rw [hq] at h1; cases h1
+        · rcases h2 with h2 | h2 | h2 <;> (rw [hi] at h2; cases h2)
+  refine ⟨?_, htok, hwc⟩
+  simp [step, hi, hq, htok, hwc, noMain]
+
+/-- the dial for id 7 gives up while its knock is parked, the plugin accepts id 7 afterwards -/
+def trace7 : List Event :=
+  [.dialBegin 7, .runKnock, .dialGiveUp, .acceptBegin 7, .acceptFirst 7, .acceptSecond 7, .kRecvStale 7]
+
+/-- **The former defect**: when parked knocks never expire, a listener accepted later answers the stale knock — the
+muxer then holds a token for a stream that will never be opened, with nothing in progress: no later dial can begin
+(its `AcceptKnock` would block for ever on the full `knockCh`). -/
+theorem stale_knock_witness :
+    ∃ s, runFrom ⟨true, 1, true, true, false⟩ (init .server) trace7 = some s ∧ s.hs = .idle ∧ s.q = [] ∧ s.tok = some 7 ∧
+      step ⟨true, 1, true, true, false⟩ s (.dialBegin 9) = none := by
+  refine ⟨(runFrom ⟨true, 1, true, true, false⟩ (init .server) trace7).get (by decide), by simp, by decide, by decide, by decide, by decide⟩
+
+/-- with expiry the same history leaves nothing behind (the stale answer is not even a step), and a fresh pair completes -/
+example : ∃ s, runFrom pGood (init .server)
+      [.dialBegin 7, .runKnock, .dialGiveUp, .acceptBegin 7, .acceptFirst 7, .acceptSecond 7,
+       .acceptBegin 9, .acceptFirst 9, .acceptSecond 9, .dialBegin 9, .runKnock, .kRecv, .kAcceptKnock, .kAck, .dialAck, .dialOpen, .xAccept] = some s ∧
+    s.delivered = [(.brokered 9, .listener 9)] ∧ s.results = [(9, true)] := by
+  refine ⟨(runFrom pGood (init .server)
+      [.dialBegin 7, .runKnock, .dialGiveUp, .acceptBegin 7, .acceptFirst 7, .acceptSecond 7,
+       .acceptBegin 9, .acceptFirst 9, .acceptSecond 9, .dialBegin 9, .runKnock, .kRecv, .kAcceptKnock, .kAck, .dialAck, .dialOpen, .xAccept]).get (by decide),
+    by simp, by decide, by decide⟩
+
+example : runFrom pGood (init .server) trace7 = none := by decide
 
 end GoPlugin.Props.C08
